@@ -10,7 +10,12 @@ package revocation
 //@ spec func ocspEnabled(m int) bool = m == config.RevocationCheckModePreferOCSP || m == config.RevocationCheckModePreferCRL || m == config.RevocationCheckModeOCSPOnly
 //@ spec func crlEnabled(m int) bool = m == config.RevocationCheckModePreferOCSP || m == config.RevocationCheckModePreferCRL || m == config.RevocationCheckModeCRLOnly
 
+// The validator is configured once (Provision / UnmarshalCaddyfile, single-threaded) and then only read by handshakes.
+//@ type CertRevocationValidator
+//@   immutable: Mode, CRLConfig, OCSPConfig, logger, ctx, crlRevocationChecker, ocspRevocationChecker, ModeParsed
+
 //@ func parseMode
+//@   constructor
 //@   props C03 C19
 //@   requires revocationValidator != nil
 //@   assigns revocation.CertRevocationValidator.ModeParsed
@@ -57,6 +62,7 @@ package revocation
 //@ spec func knownSigMode(s string) bool = s == "" || s == "none" || s == "verify_log" || s == "verify"
 
 //@ func ParseConfig
+//@   constructor
 //@   props C03 C19 C16
 //@   requires certRevocationValidator != nil && certRevocationValidator.logger != nil
 //@   requires certRevocationValidator.CRLConfig != nil ==> crlConfigFieldsOK(certRevocationValidator.CRLConfig)
@@ -127,6 +133,7 @@ package revocation
 //@   loop 1 invariant ocspConfig != nil && certsNonNil(ocspConfig.TrustedResponderCerts) && fresh(ocspConfig.TrustedResponderCerts)
 
 //@ func parseCRLConfig
+//@   constructor
 //@   props C19 C16
 //@   requires crlConfig != nil
 //@   assigns config.CRLConfig.SignatureValidationModeParsed, config.CRLConfig.StorageTypeParsed, config.CRLConfig.UpdateIntervalParsed, config.CRLConfig.TrustedSignatureCerts, config.CRLConfig.CDPConfig, config.CDPConfig.CRLFetchModeParsed, X.fs, fresh:E.*x509.Certificate
@@ -134,6 +141,7 @@ package revocation
 //@   ensures[C19] absent_cdp_block_means_active_lenient: err == nil && old(crlConfig.CDPConfig) == nil ==> crlConfig.CDPConfig.CRLFetchModeParsed == config.CRLFetchModeActively && !crlConfig.CDPConfig.CRLCDPStrict
 
 //@ func parseOCSPConfig
+//@   constructor
 //@   props C19
 //@   requires ocspConfig != nil
 //@   assigns config.OCSPConfig.DefaultCacheDurationParsed, config.OCSPConfig.TrustedResponderCerts, X.fs, fresh:E.*x509.Certificate
@@ -151,6 +159,7 @@ package revocation
 //@ dead CertRevocationValidator.Provision return4
 
 //@ func CertRevocationValidator.Provision
+//@   constructor
 //@   props C03 C19 C15
 //@   requires c != nil && nolocks()
 //@   requires freshly_constructed_module: c.ModeParsed == 0
@@ -163,6 +172,7 @@ package revocation
 //@   assigns *
 
 //@ func CertRevocationValidator.UnmarshalCaddyfile
+//@   constructor
 //@   props C19
 //@   requires c != nil && d != nil
 //@   assigns *
@@ -170,12 +180,14 @@ package revocation
 // ---- Caddyfile adapter (C19)
 
 //@ func parseConfigFromCaddyfile
+//@   constructor
 //@   props C19
 //@   requires d != nil
 //@   assigns X.dval, H.config.CRLConfig, H.config.CDPConfig, H.config.OCSPConfig, E.string
 //@   ensures err == nil ==> ret != nil
 
 //@ func parseConfigEntryFromCaddyfile
+//@   constructor
 //@   props C19
 //@   requires d != nil
 //@   assigns X.dval, H.config.CRLConfig, H.config.CDPConfig, H.config.OCSPConfig, E.string
@@ -186,6 +198,7 @@ package revocation
 //@   ensures[C19] unknown_key_rejected: key != "mode" && key != "crl_config" && key != "ocsp_config" ==> r2 && r1 != nil
 
 //@ func parseCaddyFileCrlConfigEntry
+//@   constructor
 //@   props C19
 //@   requires d != nil
 //@   assigns X.dval, H.config.CDPConfig, E.string
@@ -194,12 +207,14 @@ package revocation
 //@   ensures[C19] storage_type_is_recorded: old($dval[d]) == "storage_type" && !r2 ==> crlConfig.StorageType == $dval[d]
 
 //@ func parseCaddyfileCRLConfig
+//@   constructor
 //@   props C19
 //@   requires d != nil
 //@   assigns X.dval, H.config.CDPConfig, E.string
 //@   ensures err == nil ==> ret != nil
 
 //@ func parseCaddyfileOCSPConfig
+//@   constructor
 //@   props C19
 //@   requires d != nil
 //@   assigns X.dval, E.string
@@ -208,6 +223,7 @@ package revocation
 //@   loop 1 iter_ensures[C19] only_known_keys_pass: res(Dispenser.Val#1) == "default_cache_duration" || res(Dispenser.Val#1) == "trusted_responder_cert_file" || res(Dispenser.Val#1) == "ocsp_aia_strict"
 
 //@ func parseCaddyfileCRLCDPConfig
+//@   constructor
 //@   props C19
 //@   requires d != nil
 //@   assigns X.dval
